@@ -249,19 +249,21 @@ carquet_status_t carquet_batch_reader_next(
     carquet_error_t err = CARQUET_ERROR_INIT;
     int32_t num_row_groups = carquet_reader_num_row_groups(batch_reader->reader);
 
-    /* Check if we need to move to next row group */
+    /* Check if we need to move to next row group. The column readers are also
+     * missing when opening them failed in an earlier call: current_row_group
+     * only advances once the readers are open, so that call is repeated. */
     if (batch_reader->current_row_group < 0 ||
         !batch_reader->col_readers[0] ||
         !carquet_column_has_next(batch_reader->col_readers[0])) {
 
-        batch_reader->current_row_group++;
-        if (batch_reader->current_row_group >= num_row_groups) {
+        int32_t next_row_group = batch_reader->current_row_group + 1;
+        if (next_row_group >= num_row_groups) {
             *batch = NULL;
             return CARQUET_ERROR_END_OF_DATA;
         }
 
         carquet_status_t status = open_row_group_readers(
-            batch_reader, batch_reader->current_row_group, &err);
+            batch_reader, next_row_group, &err);
         if (status != CARQUET_OK) {
             /* No column reader is open now: stay before this row group so
              * that a later call opens it again instead of using NULL readers */
